@@ -80,6 +80,10 @@ DoCommit(d, x) == [tables |-> d.tables \cup x.tables,
                    derivs |-> d.derivs \o x.derivs,
                    glob |-> d.glob \o x.glob]
 
+\* ROLLBACK (`with connection:` left by an exception, e.g. the IntegrityError of a second record_viewer_data)
+CanRollback(x) == x.open
+NoCaseRows(x) == x.cases = <<>> /\ x.glob = <<>> /\ x.derivs = <<>>
+
 \* ---- the reader -------------------------------------------------------------------------
 \* SqliteCaseReader.__init__: `select * from global_iterations`; the metadata table must be in this file
 \* (otherwise a <name>_meta file is looked for and IOError raised); _collect_metadata reads ONE row and
@@ -107,7 +111,9 @@ IsPrefixOf(s, t) == Len(s) <= Len(t) /\ \A i \in 1..Len(s) : s[i] = t[i]
 (* The recorded run as a state machine.  A script is                       *)
 (*   [cases |-> sequence of table names (or "deriv"), in execution order,  *)
 (*    nupd  |-> number of recording requesters (one startup each),         *)
-(*    nrows |-> sequence of metadata-row tables written after startup]     *)
+(*    nrows |-> sequence of metadata-row tables written after startup,     *)
+(*    dup   |-> a second record_viewer_data: its INSERT fails on the       *)
+(*              primary key and the transaction is rolled back]            *)
 (* Program(s) is the statement sequence the recorder issues for it.        *)
 (***************************************************************************)
 CONSTANTS Scripts,    \* set of scripts
@@ -144,6 +150,7 @@ Program(s) ==
     \o <<St("Commit", "", 0)>>
     \o Flat([i \in 1..s.nupd |-> Txn1(St("UpdateMeta", "metadata", 0))])
     \o Flat([i \in 1..Len(s.nrows) |-> Txn1(St("InsertMetaRow", s.nrows[i], 0))])
+    \o (IF s.dup THEN <<St("Begin", "", 0), St("InsertMetaRow", "driver_metadata", 0), St("Rollback", "", 0)>> ELSE <<>>)
     \o Flat([i \in 1..Len(s.cases) |-> CaseStmts(s.cases[i], i)])
 
 \* the case sequence of the complete run, as list_cases() reports it
@@ -192,6 +199,9 @@ Commit == /\ At("Commit") /\ CanCommit(txn)
           /\ pc' = pc + 1
           /\ UNCHANGED <<prog, full, crashed, reader>>
 
+Rollback == /\ At("Rollback") /\ CanRollback(txn) /\ NoCaseRows(txn)
+            /\ txn' = NoTxn /\ pc' = pc + 1 /\ UNCHANGED durable /\ Same
+
 \* the process dies: enabled in EVERY state of the run (including before the first statement and after the last)
 Crash == /\ ~crashed /\ reader.st = "none"
          /\ crashed' = TRUE
@@ -207,7 +217,7 @@ Open == /\ reader.st = "none"
         /\ UNCHANGED <<prog, full, pc, durable, txn, started, ncommit, crashed>>
 
 Next == \/ CreateTables \/ Begin \/ InsertMetaStub \/ UpdateMeta \/ InsertMetaRow
-        \/ InsertCase \/ InsertGlobal \/ InsertDeriv \/ Commit \/ Crash \/ Open
+        \/ InsertCase \/ InsertGlobal \/ InsertDeriv \/ Commit \/ Rollback \/ Crash \/ Open
 
 Spec == Init /\ [][Next]_vars
 
@@ -225,6 +235,7 @@ Executable == Running =>
       [] Cur.op = "InsertGlobal" -> CanInsertGlobal(durable, txn, Cur.t)
       [] Cur.op = "InsertDeriv" -> CanInsertDeriv(durable, txn)
       [] Cur.op = "Commit" -> CanCommit(txn)
+      [] Cur.op = "Rollback" -> CanRollback(txn) /\ NoCaseRows(txn)
       [] OTHER -> FALSE
 
 \* no state in which a case row is durable without its global row (or the reverse)
